@@ -869,7 +869,11 @@ impl<'a> Parser<'a> {
                     ix += 3;
                     loop {
                         if ix >= self.re.len() {
-                            return Err(Error::ParseError(ix, ParseError::UnclosedOpenParen));
+                            // `ix` can be one past the end after a trailing backslash
+                            return Err(Error::ParseError(
+                                self.re.len(),
+                                ParseError::UnclosedOpenParen,
+                            ));
                         }
                         match bytes[ix] {
                             b')' => {
